@@ -16,6 +16,7 @@ import VotelibProofs.Lemmas.ScaleRanked
 import VotelibProofs.Lemmas.ScaleApproval
 import VotelibProofs.Lemmas.ScaleStar
 import VotelibProofs.Lemmas.ScaleBucklin
+import VotelibProofs.Lemmas.ScaleSTV
 import VotelibModel.ScaleFamilies
 import VotelibModel.Gen.Quota
 import Mathlib.Tactic.Ring
@@ -260,6 +261,36 @@ theorem bucklin_scale (k : Rat) (hk : 0 < k) (p : Convert.RProfile) :
 theorem bucklinWhole_scale (k : Rat) (hk : 0 < k) (p : Convert.RProfile) :
     Mono.evalBucklin (scaleProfile k p) = Mono.evalBucklin p := VL.Scale.evalBucklin_scale k hk p
 
+/-! ### transferable vote -/
+
+/-- a ranked profile (STV model) with every ballot weight multiplied by `k` -/
+abbrev scaleSTV (k : Rat) (votes : STV.Profile) : STV.Profile := VL.Scale.scaleProf k votes
+
+/-- the configuration's quota function is homogeneous (Hare, Hagenbach-Bischoff, Imperiali) or absent -/
+abbrev HomogeneousSTV (cfg : STV.Cfg) : Prop := VL.Scale.HomogeneousCfg cfg
+
+theorem hare_homogeneousSTV (ae mand : Bool) (step : Option Int) :
+    HomogeneousSTV ⟨some Gen.Quota.hare, ae, mand, step⟩ := by
+  intro f hf k V n
+  have : f = Gen.Quota.hare := by injection hf with h; exact h.symm
+  rw [this]; exact hare_homogeneous k V n
+
+/-- **STV, Gregory transfers, Hare quota — the selector** (`TransferableVoteSelector(transferer='Gregory',
+    quota_function='hare')`), any `accept_quota_equal` / `mandatory_quota` / `eliminate_step`: by the simulation
+    `allocation₂ = k • allocation₁` through the initial allocation (Gregory split of shared first ranks), every count
+    (quota `kq`, whole quotas `floor(kv/(kq))`, surplus retention `(cur − n)/cur`, eliminations by `get_n_best`) and the
+    loop.  The draw stream is not consumed by the Gregory engine. -/
+theorem stvSelector_scale (k : Rat) (hk : 0 < k) (cfg : STV.Cfg) (hq : HomogeneousSTV cfg) (votes : STV.Profile) (n : Nat)
+    (ds : List STV.Draw) :
+    STV.selectorEvaluate STV.gregory cfg (scaleSTV k votes) n ds = STV.selectorEvaluate STV.gregory cfg votes n ds :=
+  VL.Scale.selectorEvaluate_scale k hk cfg hq votes n ds
+
+/-- the distributor, with previous gains and seat caps -/
+theorem stvDistributor_scale (k : Rat) (hk : 0 < k) (cfg : STV.Cfg) (hq : HomogeneousSTV cfg) (inp : STV.Input)
+    (ds : List STV.Draw) :
+    STV.distributorEvaluate STV.gregory cfg (VL.Scale.scaleInput k inp) ds = STV.distributorEvaluate STV.gregory cfg inp ds :=
+  VL.Scale.distributorEvaluate_scale k hk cfg hq inp ds
+
 /-- **Near ties are never ties**: totals that differ by one vote at any magnitude (`v` is any rational, so in particular
     `10^30`) are separated. -/
 theorem near_tie_separated (a b : Cand) (v : Rat) :
@@ -306,6 +337,9 @@ example : Score.star 1 0 ⟨.sum, .none, 0, .off, 0⟩ (scaleScore 7 [([(1, 5), 
     = .ok [Slot.cand 2] := by decide +kernel
 example : Mono.evalBucklinSplit (scaleProfile ((10:Rat)^25 + 7)
     [([.one 1, .one 2, .one 3], 2), ([.one 3, .shared [1, 2]], 2), ([.one 2], 1)]) = .ok [Slot.cand 2] := by decide +kernel
+example : STV.selectorEvaluate STV.gregory ⟨some Gen.Quota.hare, true, false, some (-1)⟩ (scaleSTV ((10:Rat)^25 + 7)
+    [([.one 1, .one 2], 5), ([.one 2, .one 3], 2), ([.shared [2, 3], .one 1], 2), ([.one 3], 1)]) 2 [] = .ok [1, 2] := by
+  decide +kernel
 example : relativeThreshold (1/3) false (scaleVotes ((10:Rat)^25 + 7) [(1,2),(2,1),(3,3)]) = .ok [3] := by decide +kernel
 example : getNBest (scaleVotes ((10:Rat)^25 + 7) [(1,5),(2,3),(3,3)]) 2 = [Slot.cand 1, Slot.tie [2,3]] := by decide +kernel
 
